@@ -9,7 +9,7 @@ mkdir -p /tmp/seeded-eval && cp /verif/known_findings.txt /tmp/seeded-eval/
 git diff --stat | tail -1
 for id in "$@"; do
   out=$(cd /verif && VERIF_DIR_OVERRIDE=/tmp/seeded-eval ./check "$id" quick 2>&1); rc=$?
-  echo "[$id] rc=$rc"; echo "$out" | grep -E "scenario=|^VIOLATION|KNOWN|HARNESS|HANG|^runs=" | cut -c1-300
+  echo "[$id] rc=$rc"; echo "$out" | grep -a -E "scenario=|^VIOLATION|KNOWN|HARNESS|HANG|^runs=" | cut -c1-300
 done
 git -C /repo checkout -- .
 cd /verif/sim && cargo build --release --offline >/dev/null 2>&1
